@@ -314,6 +314,12 @@ def r13_1(chk):
                    sample='%s -> Panel.%s(%s)' % (fname, cal, got))
             st = pyrules.stmt_of(fn, calls[0])
             chk.ob('R13.1', isinstance(st, ast.AugAssign) and isinstance(st.op, ast.Add), ASSEMBLY, fname, '%s accumulated' % cal, line=calls[0].lineno, got=norm(st)[:60])
+            # every panel contributes: nothing in the loop body can skip the call
+            skips = [norm(n)[:50] for n in ast.walk(loops[0]) if isinstance(n, (ast.Continue, ast.Break))]
+            cond = [norm(t) for t, pol in pyrules.enclosing_tests(loops[0], calls[0])] if any(x is calls[0] for x in ast.walk(loops[0])) else []
+            chk.ob('R13.1', not skips and not cond, ASSEMBLY, fname, 'every panel contributes to %s' % cal, line=loops[0].lineno,
+                   expected='the per-panel call is unconditional (only a raise on undefined offsets may precede it)', got=skips + cond,
+                   detail='' if not (skips or cond) else 'panels for which the condition holds are left out of the global sum')
         if meth in ('calc_k0', 'calc_kG0', 'calc_kM', 'calc_kT'):
             pyrules.check_finalize_path(chk, 'R13.1', ASSEMBLY, 'PanelAssembly', meth, meth[5:], allow_after={'k0_conn', 'self.k0_conn'})
     # connection matrix added exactly once in k0 / kT; k0_conn*c in fint
